@@ -541,6 +541,9 @@ def bvval_wire(val):
     return "o"
 
 
+NENV = 3
+
+
 class Res(object):
     __slots__ = ("env", "obj", "out", "kid", "exp", "recipe", "name", "special")
 
@@ -573,18 +576,19 @@ class History(object):
         from pysmt.environment import Environment
         self.rng = rng
         self.nops = nops
-        self.envs = [Environment(), Environment()]
+        self.envs = [Environment() for _ in range(NENV)]
         self.mgr = [x.formula_manager for x in self.envs]
         self.B = Blue()
         self.res = []
         self.ops = []
-        self.pool = [{}, {}]
-        self.symidx = [{}, {}]       # name -> result index of a successful Symbol op
-        self.pytypes = [{}, {}]
+        self.pool = [{} for _ in range(NENV)]
+        self.symidx = [{} for _ in range(NENV)]
+        self.pytypes = [{} for _ in range(NENV)]
         self.counts = {}
         self.viol = []               # (sig, what)
         self.norm_checks = []
         self.max_widths = 24
+        self.active = [0]
         self.akid = {}
         self.tyids = {}
         self.keep = []
@@ -995,7 +999,7 @@ class History(object):
         self.counts["get"] = self.counts.get("get", 0) + 1
 
     def do_normalize(self, e, i):
-        """mgr[e].normalize(object i of the other environment)"""
+        """mgr[e].normalize(object i), i living in any environment (also e itself)"""
         src = self.o(i)
         symbefore = self.symty(e)
         decl = dict((n, d.arity) for n, d in self.envs[e].type_manager._custom_types_decl.items())
@@ -1516,7 +1520,7 @@ class History(object):
             return self.build(e, "Fresh", self.anytype(), pre, post)
         if r < 0.93:    # a sort declared with different arities in the two environments
             d = self.envs[e].type_manager._custom_types_decl.get("Q")
-            ar = d.arity if d is not None else e
+            ar = d.arity if d is not None else e % 2
             t = ("C", "Q", ()) if ar == 0 else ("C", "Q", (("I",),))
             return self.build(e, "Symbol", "qs%d" % rng.randrange(2), t)
         t = rng.choice([BOX_PAIR, ("C", "Box", (BOX_PAIR,)), ("A", BOX_PAIR, PAIR_II), ("F", BOX_U, (BOX_PAIR,))])
@@ -1671,12 +1675,21 @@ class History(object):
         return args     # leaves: Symbol, Fresh(never replayed identically), constants
 
     def g_normalize(self, e):
-        other = 1 - e
-        c = [i for i, x in enumerate(self.res) if x.env == other and self.usable(i)]
-        if not c:
-            return None
-        i = self.rng.choice(c[-25:]) if self.rng.random() < 0.6 else self.rng.choice(c)
-        return self.do_normalize(e, i)
+        """normalize into e an object of another environment (interleaving several sources on
+        one target, whose normalizer keeps its memo) or, sometimes, one of e's own formulas"""
+        rng = self.rng
+        if rng.random() < 0.2:
+            srcs = [e]
+        else:
+            srcs = [k for k in self.active if k != e]
+            rng.shuffle(srcs)
+            srcs = srcs[:1] + [e]
+        for k in srcs:
+            c = [i for i, x in enumerate(self.res) if x.env == k and self.usable(i)]
+            if c:
+                i = rng.choice(c[-25:]) if rng.random() < 0.6 else rng.choice(c)
+                return self.do_normalize(e, i)
+        return None
 
     def run(self):
         rng = self.rng
@@ -1685,13 +1698,13 @@ class History(object):
              "const": 1.5, "replay": 3, "rebuild": 2.5, "normalize": 1.2}
         for k in list(w):
             w[k] *= rng.choice([0.2, 1, 1, 3])
-        p_env1 = rng.choice([0.0, 0.1, 0.3, 0.5])
-        if p_env1 == 0.0:
-            w["normalize"] = 0
+        nact = rng.choice([1, 2, 2, 3, 3, 3])
+        self.active = list(range(nact))
+        envw = [1.0] + [rng.choice([0.15, 0.5, 1.0]) for _ in range(nact - 1)]
         names = list(w)
         weights = [w[k] for k in names]
         while len(self.ops) < self.nops:
-            e = 1 if rng.random() < p_env1 else 0
+            e = rng.choices(self.active, envw)[0]
             g = rng.choices(names, weights)[0]
             if g == "bool":
                 self.g_bool(e)
@@ -1779,10 +1792,10 @@ class History(object):
 
     def request(self):
         addr = []
-        for e in (0, 1):
+        for e in range(NENV):
             nodes = sorted(self.mgr[e].formulae.values(), key=id)
             addr.append("A:" + ",".join(str(n.node_id()) for n in nodes))
-        return "mgr %s %s | %s" % (addr[0], addr[1], " | ".join(self.ops))
+        return "mgr %s | %s" % (" ".join(addr), " | ".join(self.ops))
 
     def py_results(self):
         out = []
@@ -1830,7 +1843,7 @@ class History(object):
                     sig["spelling"] = x.recipe[1][0][0]
                 V.append((sig, "op %d: %s expected %s, got %s" % (idx, self.ops_text(idx), x.exp or "a node", x.out or x.obj)))
         # one object per structure, within each environment
-        for e in (0, 1):
+        for e in range(NENV):
             bykid = {}
             for c, n in self.mgr[e].formulae.items():
                 if n._content is not c and n._content != c:
@@ -1869,9 +1882,13 @@ class History(object):
                 V.append(({"oracle": "normalize", "shape": "structure-differs"},
                           "op %d: copy %s of %s" % (idx, x.obj, self.o(src_i))))
         d = self.dag(x.obj)
-        srcids = set(id(n) for n in self.mgr[1 - e].formulae.values())
-        if any(i in srcids for i in d):
-            V.append(({"oracle": "normalize", "shape": "shared-node"}, "op %d: copy %s shares a node with the source environment" % (idx, x.obj)))
+        if self.res[src_i].env == e:
+            if x.obj is not self.o(src_i):
+                V.append(({"oracle": "normalize", "shape": "own-formula-not-identity"},
+                          "op %d: normalize of the manager's own %s returned another object %s" % (idx, self.o(src_i), x.obj)))
+        foreign = set(id(n) for k in range(NENV) if k != e for n in self.mgr[k].formulae.values())
+        if any(i in foreign for i in d):
+            V.append(({"oracle": "normalize", "shape": "shared-node"}, "op %d: copy %s shares a node with another environment" % (idx, x.obj)))
         m = self.mgr[e]
         tm = self.envs[e].type_manager
         for n in d.values():
@@ -1904,7 +1921,7 @@ def compare(h, answer):
     if answer == "bad-op":
         return "the model rejects the request as ill-formed"
     parts = answer.split(" # ")
-    if len(parts) != 5:
+    if len(parts) != 1 + 2 * NENV:
         return "malformed model answer"
     mres = parts[0].split(" ") if parts[0] else []
     pres = h.py_results()
@@ -1913,7 +1930,7 @@ def compare(h, answer):
     for i, (a, b) in enumerate(zip(mres, pres)):
         if a != b:
             return "op %d `%s`: model %s, implementation %s" % (i, h.ops[i], a, b)
-    for e in (0, 1):
+    for e in range(NENV):
         pt = h.table(e)
         if parts[1 + e] != pt:
             ma, pa = parts[1 + e].split(" "), pt.split(" ")
@@ -1921,7 +1938,7 @@ def compare(h, answer):
                 if x != y:
                     return "env %d table: model `%s`, implementation `%s`" % (e, x, y)
             return "env %d table: different length (%d vs %d)" % (e, len(ma), len(pa))
-        mt, pt2 = parse_tm(parts[3 + e]), h.tmdump(e)
+        mt, pt2 = parse_tm(parts[1 + NENV + e]), h.tmdump(e)
         for k in pt2:
             if mt.get(k, set()) != pt2[k]:
                 return "env %d type manager %s: model-only %s, implementation-only %s" % (
@@ -2055,7 +2072,7 @@ def _flush(ctx, hs, lines, answers, seen_nt):
                 if id(x.obj) in seen:
                     hits += 1
                 seen.add(id(x.obj))
-        for e in (0, 1):
+        for e in range(NENV):
             for n in h.mgr[e].formulae.values():
                 seen_nt.add(n.node_type())
         for k, v in h.counts.items():
